@@ -627,6 +627,18 @@ def run_iface(ctx, c, f, ref, rpos, cpos):
             res = f.assign.bloc[key](val)
             exp = [[val_t if mask[i][j] else ref.cols[j][i] for i in range(n)] for j in range(m)]
             return compare_frame(res, ref, exp)
+        if (rng_r // 7) % 3 == 2:
+            # the coordinate form: a Series labelled by (row label, column label), given or produced by apply
+            ctx.count('assign_bloc_coordinate_value')
+            rl_, cl_ = list(f.index), list(f.columns)
+            code = lambda lab: 1000 + 10 * rl_.index(lab[0]) + cl_.index(lab[1])
+            if (rng_r // 21) % 2:
+                res = f.assign.bloc[key].apply(lambda s_: sf.Series([code(l) for l in s_.index], index=s_.index))
+            else:
+                sel = f.bloc[key]
+                res = f.assign.bloc[key](sf.Series([code(l) for l in sel.index], index=sel.index))
+            exp = [[tok(np.int64(code((rl_[i], cl_[j])))) if mask[i][j] else ref.cols[j][i] for i in range(n)] for j in range(m)]
+            return compare_frame(res, ref, exp, dtype_cols=[])
         # a Frame value, aligned by label: one 1-D block per column, labels permuted, so that the value arrives in narrower
         # pieces than the blocks of the target; cells not addressed by the key keep their value
         ctx.count('assign_bloc_frame_value')
